@@ -50,6 +50,7 @@ class Client:
 
 class C19Engine(Engine):
     pid = "C19"
+    counter = 0
     rule = ("cases: transport in {tcp, unix} x 0..3 raw stream clients (+ the bundled CLI client as a subprocess in a few cases) x generated "
             "orders of connect (with / without handshake) / command / disconnect (close, EOF, abort) x position of the stop (cancel of the "
             "serving task). Oracle: serve_forever() returns a task within the bound; handshake reply is the pool name; commands are answered "
@@ -105,7 +106,11 @@ class C19Engine(Engine):
         async def main() -> None:
             from asyncio_taskpool import TaskPool
             from asyncio_taskpool.control.server import TCPControlServer, UnixControlServer
-            pool = TaskPool(name="S")
+            # unique per process and case: several shards open servers on ephemeral ports of the same host at the same time
+            C19Engine.counter += 1
+            pname = f"S{os.getpid()}x{C19Engine.counter}"
+            pool = TaskPool(name=pname)
+            full = ("TaskPool-" + pname).encode()
             labels.add("transport:" + case["transport"])
             if case["transport"] == "tcp":
                 server: Any = TCPControlServer(pool, host="127.0.0.1", port=0)
@@ -186,7 +191,7 @@ class C19Engine(Engine):
             for i, ev in enumerate(case["events"] + [None]):
                 if i == case["stop_at"] and not stopped:
                     if case.get("cli"):
-                        await self.cli_client(case, port, path, fail, labels)
+                        await self.cli_client(case, port, path, fail, labels, full)
                         for o in clients:
                             if o.w is not None and o.shaken:
                                 await ask(o, 0)      # sessions of other clients are unaffected by the CLI client's visit
@@ -222,7 +227,7 @@ class C19Engine(Engine):
                             continue
                         except (ConnectionError, OSError):
                             name = b""
-                        if name == b"TaskPool-S\n":
+                        if name == full + b"\n":
                             c.shaken = True
                         elif not stopped:
                             fail("handshake/wrong-reply", repr(name))
@@ -303,8 +308,18 @@ class C19Engine(Engine):
             except asyncio.TimeoutError:
                 state["inconclusive"] = "connect after stop timed out"
             else:
+                # on TCP the port number may meanwhile belong to somebody else's server: ask who answers
+                try:
+                    w.write(json.dumps({"terminal_width": 80}).encode() + b"\n")
+                    await w.drain()
+                    who = await asyncio.wait_for(r.readline(), 1.0)
+                except Exception:
+                    who = b""
                 w.close()
-                fail("stop/address-still-accepts-connections", "")
+                if who == full + b"\n" or case["transport"] == "unix":
+                    fail("stop/address-still-accepts-connections", repr(who))
+                else:
+                    labels.add("stop:port-reused-by-someone-else")
             if case["transport"] == "unix" and os.path.exists(path):
                 fail("stop/unix-socket-file-left-behind", path)
             if not case.get("restart"):
@@ -327,7 +342,7 @@ class C19Engine(Engine):
                 w.write(json.dumps({"terminal_width": 80}).encode() + b"\n")
                 await w.drain()
                 name = await asyncio.wait_for(r.readline(), BOUND)
-                if name != b"TaskPool-S\n":
+                if name != full + b"\n":
                     fail("restart/handshake", repr(name))
                 w.write(b"num-running\n")
                 await w.drain()
@@ -362,7 +377,7 @@ class C19Engine(Engine):
             fail("io/printed-on-server-stdio", (out + err)[:200])
         return {"violations": viol, "labels": sorted(labels), "stats": {}, "inconclusive": state["inconclusive"], "error": error}
 
-    async def cli_client(self, case: dict, port: Any, path: str, fail: Any, labels: set) -> None:
+    async def cli_client(self, case: dict, port: Any, path: str, fail: Any, labels: set, full: bytes = b"") -> None:
         args = ["tcp", "127.0.0.1", str(port)] if case["transport"] == "tcp" else ["unix", path]
         env = dict(os.environ, PYTHONPATH=SRC, PYTHONDONTWRITEBYTECODE="1", COLUMNS="80")
         how = "exit" if hash(json.dumps(case, sort_keys=True)) % 2 else "eof"
@@ -378,7 +393,7 @@ class C19Engine(Engine):
             return
         text = out.decode(errors="replace")
         labels.add("cli:" + how)
-        if "Connected to TaskPool-S" not in text:
+        if ("Connected to " + full.decode()) not in text:
             fail("cli/pool-name-not-printed", text[:200] + err.decode(errors="replace")[-200:])
         if "\n0\n" not in text.replace("> ", "\n") or "False" not in text:
             fail("cli/replies-not-printed", text[:300])
